@@ -6,6 +6,7 @@ import HappyProofs.C13.SafetyInv
 import HappyProofs.C13.Detect
 import HappyProofs.C13.PhiTick
 import HappyProofs.C13.NoDelegate
+import HappyProofs.C13.PropsDetect
 /-!
 C13 property theorems (statements about `Spec` predicates and model runs only).
 
@@ -24,8 +25,9 @@ C13 property theorems (statements about `Spec` predicates and model runs only).
   (`tail`, `nlog` parameters).
 * `failure_detected_partial` — repaired handler: once the ack timeout of a probe of `x` fires at a
   live node `a`, `a` does not report `x` ALIVE for the rest of any run in which nothing from `x`
-  (and no "alive" update about `x`) is delivered to `a`.  `failure_detected_full` (the bound in
-  probe ticks) is stated and left unproved.
+  (and no "alive" update about `x`) is delivered to `a`.  The bound in probe ticks after a crash is
+  `failure_detected_full` (with `crash_yields_quiet_run`, `round_robin_reaches`,
+  `round_robin_between`, `failure_detected_row`, `failure_detected_within_crashes`) in `PropsDetect.lean`.
 * `no_delegate_detected`, `unacked_probe_dead_after_suspicion`, `lone_observer_detects`,
   `lone_observer_within_deadline` — clause 2 when nobody can relay an indirect probe (a pair,
   `indirect_probe_count = 0`, every other peer DEAD): the ack timeout sends nothing, still suspects and
@@ -40,83 +42,7 @@ variable {D : Type} [Inhabited D] [Detector D]
 
 /-! ### helpers: initial state, Spec rows -/
 
-theorem lget_default_or_mem {α} (d : α) (l : List α) (i : Nat) : lget d l i = d ∨ lget d l i ∈ l := by
-  induction l generalizing i with
-  | nil => exact Or.inl (lget_nil d i)
-  | cons x xs ih =>
-    cases i with
-    | zero => exact Or.inr (by simp [lget])
-    | succ i =>
-      rcases ih i with h | h
-      · exact Or.inl (by simpa [lget] using h)
-      · exact Or.inr (by simp [lget, h])
-
-theorem lget_map_range {α} (d : α) (f : Nat → α) (n x : Nat) (h : x < n) :
-    lget d ((List.range n).map f) x = f x := by
-  have key : ∀ (l : List Nat) (i : Nat) (hi : i < l.length), lget d (l.map f) i = f (l[i]) := by
-    intro l
-    induction l with
-    | nil => intro i hi; simp at hi
-    | cons y ys ih =>
-      intro i hi
-      cases i with
-      | zero => rfl
-      | succ i => simpa [lget] using ih i (by simpa using hi)
-  have := key (List.range n) x (by simpa using h)
-  simpa using this
-
-theorem init_node (c : Cfg) (det : D) (orders : List (List Nat)) (offs : List Nat) (a : Nat) :
-    (∀ x, ((Sys.init c det orders offs).node a).pendOf x = none) ∧
-    (∀ x, ((Sys.init c det orders offs).node a).view x = .alive) ∧
-    ((Sys.init c det orders offs).node a).upds = [] := by
-  unfold Sys.node Sys.init
-  simp only []
-  rcases lget_default_or_mem (default : Node D) ((List.range c.n).map fun a =>
-      Node.init c det (lget [] orders a) (lget 0 offs a)) a with h | h
-  · rw [h]
-    exact ⟨fun x => lget_nil _ _, fun x => by simp [Node.view, Node.member, default, lget_nil], rfl⟩
-  · obtain ⟨b, _, hb⟩ := List.mem_map.mp h
-    rw [← hb]
-    refine ⟨fun x => ?_, fun x => ?_, rfl⟩
-    · rcases lget_default_or_mem (none : Option Timer) (List.replicate c.n none) x with h1 | h1
-      · exact h1
-      · exact List.eq_of_mem_replicate h1
-    · unfold Node.view Node.member Node.init
-      simp only []
-      rcases lget_default_or_mem (default : Member D) (List.replicate c.n { det := det }) x with h1 | h1
-      · rw [h1]; rfl
-      · rw [List.eq_of_mem_replicate h1]
-
-theorem inv_init (c : Cfg) (δ : Nat) (det : D) (orders : List (List Nat)) (offs : List Nat) :
-    Inv c δ (Sys.init c det orders offs) := by
-  refine ⟨rfl, ?_, ?_, ?_, ?_⟩
-  · intro a x t hp; rw [(init_node c det orders offs a).1 x] at hp; cases hp
-  · intro a x _
-    refine ⟨by rw [(init_node c det orders offs a).2.1 x]; simp, ?_⟩
-    rw [(init_node c det orders offs a).2.2]; exact hasDead_nil x
-  · intro m hm; simp [Sys.init] at hm
-  · intro a x t _ _ hp; rw [(init_node c det orders offs a).1 x] at hp; cases hp
-
-/-- the hypothesis on the action sequence: when an action happens at time `t`, every message still
-    in flight was sent at most `δ` before `t` ("every sent message is delivered within δ"), and no
-    partition is active afterwards (the network routes every message it is handed) -/
-def timelyRun (c : Cfg) (δ : Nat) : Sys D → List Act → Bool
-  | _, [] => true
-  | s, act :: rest => s.soup.all (fun m => decide (act.time ≤ m.sent + δ)) && (step c s act).whole &&
-      timelyRun c δ (step c s act) rest
-
-theorem inv_run (c : Cfg) (δ : Nat) (hδ : 2 * δ < c.half + c.susp) (s : Sys D) (acts : List Act)
-    (I : Inv c δ s) (ht : timelyRun c δ s acts = true) : Inv c δ (run c s acts) := by
-  induction acts generalizing s with
-  | nil => exact I
-  | cons act rest ih =>
-    simp only [timelyRun, Bool.and_eq_true, List.all_eq_true, decide_eq_true_eq] at ht
-    exact ih _ (inv_step c δ hδ s _ act.time I (fun m hm => ht.1.1 m hm) (step_rel c s act) ht.1.2) ht.2
-
 /-! ### clause 1 -/
-
-/-- the observed row of node `a` -/
-def obsRow (n : Nat) (s : Sys D) (a : Nat) : List MState := (List.range n).map (s.view a)
 
 theorem no_false_death_view (c : Cfg) (δ : Nat) (hδ : 2 * δ < c.half + c.susp) (det : D)
     (orders : List (List Nat)) (offs : List Nat) (acts : List Act)
@@ -144,8 +70,6 @@ theorem no_false_death (c : Cfg) (δ : Nat) (hδ : Spec.boundOk δ c.half c.susp
   · simp [hc]
   · have hv := no_false_death_view c δ hδ' det orders offs acts ht a x (by simpa [Sys.isCrashed] using hc)
     simp [hv]
-
-instance : Detector Unit := ⟨fun _ _ => (), fun _ _ => true⟩
 
 /-- non-vacuity: a 3-node run in which a probe, its ping and its ack happen under `δ = 2` is timely,
     the bound holds, and messages really were exchanged -/
@@ -341,18 +265,6 @@ example :
     s.isCrashed 0 = false ∧ (s.node 0).nextTick = 20 ∧
     Detector.avail ((s.node 0).member 2).det 20 = false ∧ s.view 0 2 = .alive ∧
     (run c s [.tick 0 20 []]).view 0 2 = .suspect := by decide
-
-/-- the full clause, not proved: a bound in probe ticks after the crash.  Missing: (i) that after
-    `crash + δ` the schedule is `QuietRun` for `x` (needs the invariant "no alive update exists"),
-    (ii) the round-robin argument that `a` probes `x` within `detectTicks n k` ticks. -/
-def failure_detected_full : Prop :=
-  ∀ (c : Cfg) (δ : Nat) (det : Unit) (orders : List (List Nat)) (offs : List Nat) (acts : List Act)
-    (a x cx : Nat),
-    c.fix = true → Spec.boundOk δ c.half c.susp = true →
-    timelyRun c δ (Sys.init c det orders offs) acts = true →
-    let s := run c (Sys.init c det orders offs) acts
-    s.isCrashed a = false → s.isCrashed x = true →
-    s.now > Spec.detectDeadline c.n c.n c.interval c.half δ cx → s.view a x ≠ .alive
 
 /-- non-vacuity of `failure_detected_partial`, and the clause does real work: node 2 crashed at
     time 0, node 0 probes it at 10, the ack timeout fires at 15: SUSPECT under the repaired handler -/
